@@ -293,6 +293,9 @@ class RaggedArray(IndexableArray, np.lib.mixins.NDArrayOperatorsMixin):
 
     def _accumulate(self, ufunc, ra, axis=0, **kwargs):
         if ufunc in (np.add, np.subtract, np.bitwise_xor):
+            if np.issubdtype(self.dtype, np.floating) and self.size:
+                # one scan over all rows minus the row offsets is only exact in integer arithmetic
+                return self.__class__(np.concatenate([ufunc.accumulate(row) for row in self]), self._shape)
             return self._row_accumulate(ufunc)
         if ufunc not in ACCUMULATIONS:
             return NotImplemented
